@@ -190,6 +190,17 @@ def _get_code(args, v):
         import ops_build
         code = ops_build.make_variant(code, args["recipe"])
         v.features["input_rasm_variant"] += 1
+    if args.get("poison"):
+        # injected fault: a decode that raises half-way (a code object whose constant / name tables
+        # were emptied) must leave nothing behind that changes the next decode
+        from ops_const import code_replace
+        for kw in ({"co_consts": ()}, {"co_names": ()}, {"co_varnames": (), "co_nlocals": 0}):
+            try:
+                lib().CodeData.from_code(code_replace(code, **kw))
+            except Exception:
+                v.features["poison_decode_raised"] += 1
+            else:
+                v.features["poison_decode_returned"] += 1
     return code
 
 
